@@ -299,10 +299,11 @@ def gap_model(repo: Repo) -> Lab:
         Spec("A", 1, "G"), Spec("A", 2, "C"), Spec("A", 3, "A"),
         Spec("A", 6, "U"), Spec("A", 7, "G"), Spec("A", 8, "HOH", nuc=False), Spec("A", 10, "C"),
         Spec("B", 21, "G"), Spec("B", 22, "C"), Spec("B", 25, "U"), Spec("B", 26, "A"),
+        Spec("A", 31, "G"), Spec("A", 32, "U"),  # chain id A again after chain B (a second segment with the same id, as in assemblies): its own strand, in file order
     ]
     # O3'(x) - P(y) bonded: directed.  2->3 is a real gap (numbers 4, 5 missing); 4->6 is bonded although the numbers jump
     # (and a water sits between them in the file); 6->7 is a chain change; 8->9 is a gap (23, 24); 9->10 is a break without missing numbers
-    return Lab(repo, specs, [(0, 1), (1, 2), (3, 4), (4, 6), (7, 8)])
+    return Lab(repo, specs, [(0, 1), (1, 2), (3, 4), (4, 6), (7, 8), (11, 12)])
 
 
 def check_numbering(chk) -> Optional[bool]:
@@ -332,7 +333,7 @@ def check_numbering(chk) -> Optional[bool]:
             for a, b in ((0, 6), (1, 4), (2, 3), (7, 10)):
                 want_pair[number[a] - 1], want_pair[number[b] - 1] = number[b], number[a]
             got_pair = [e.pair for e in entries]
-            model = f"chains {lab.ref_sequences(False)}, numbers A:1,2,3,6,7,(8 water),10 B:21,22,25,26, bonded 1-2-3, 6-7-10, 21-22; {tag}"
+            model = f"chains {lab.ref_sequences(False)}, numbers A:1,2,3,6,7,(8 water),10 B:21,22,25,26 A:31,32, bonded 1-2-3, 6-7-10, 21-22, 31-32; {tag}"
             chk.expect(got_idx == list(range(1, len(entries) + 1)), "numbering-fact", fi.where, f"the {len(entries)} entries are numbered 1, 2, ... in order ({tag})", f"the {len(entries)} BPSEQ entries are numbered {got_idx}, not 1, 2, ... in order: every stored entry (residue or placeholder) must take the next number ({model})", K(fi, "numbering-fact:index"), expected=list(range(1, len(entries) + 1)), found=got_idx)
             chk.expect(
                 got_seq == seq,
@@ -366,8 +367,8 @@ def check_numbering(chk) -> Optional[bool]:
                 got_st == want_st,
                 "strands-fact",
                 ss.where,
-                f"strand sequences {want_st}: one strand per chain, concatenating to the BPSEQ sequence ({tag})",
-                f"strand sequences are {got_st}, the statement gives {want_st} (they must concatenate to the BPSEQ sequence `{seq}`) ({model})",
+                f"strand sequences {want_st}: one strand per run of consecutive nucleotides of one chain id (a chain id that comes back after another chain opens a new strand), concatenating to the BPSEQ sequence ({tag})",
+                f"strand sequences are {got_st}, the statement gives {want_st}: the strands must concatenate to the BPSEQ sequence `{seq}`, which numbers the nucleotides in file order - a chain id that comes back after another chain (second segment A:31,32) is a strand of its own ({model})",
                 K(ss, "strands-fact"),
                 expected=want_st,
                 found=got_st,
@@ -797,9 +798,11 @@ def check_extended(chk) -> Optional[bool]:
             E(0, 5, "cWW"),  # duplicate
             E(7, 8, "cSS", how="auth"),
             E(2, ("ghost", "Z", 5, "U"), "cWW"),  # dangling
+            E(3, 4, "cWW"),  # A.U4 sits in the second row only, A.G5 in the first row only: the first row free for BOTH is the third
             E(4, 8, "cWW"),  # A.G5 is already in the first row, as a later member (not as the pair that opened the row)
+            E(1, 2, "cWW"),  # the mirror case: A.C2 sits in the first row only, A.A3 in the second row only
         ]
-        want = {(0, 5, "cWW"), (0, 3, "cWW"), (0, 9, "cWW"), (1, 4, "cWW"), (2, 5, "cWW"), (2, 4, "tSH"), (1, 6, "cWH"), (5, 6, "tWW"), (7, 8, "cSS"), (4, 8, "cWW")}
+        want = {(0, 5, "cWW"), (0, 3, "cWW"), (0, 9, "cWW"), (1, 4, "cWW"), (2, 5, "cWW"), (2, 4, "tSH"), (1, 6, "cWH"), (5, 6, "tWW"), (7, 8, "cSS"), (4, 8, "cWW"), (3, 4, "cWW"), (1, 2, "cWW")}
         m = lab.mapping(entries, False)
         text = w.getattr(m, "extended_dot_bracket")
         strands = lab.ref_sequences(False)
